@@ -149,32 +149,63 @@ def rule_enum_surface(ctx):
                      "operator production the operator its token denotes, and `Print for IfSort`/`Print for BinOp` print the token "
                      "the grammar reads for that variant (round trip of the operator itself)")
     n = 0
+    LAL = "lang/fun/src/parser/fun.lalrpop"
+    token_nts = {}      # nonterminal that only yields a sort -> set of 'zero' / 'two' forms of its tokens
     for name, p in g.prods.items():
         for a in p["alts"]:
             if not a.action or "IfSort::" not in a.action:
                 continue
             toks = [(_cmp_token(s["sym"]), s) for s in a.symbols]
             toks = [t for t, s in toks if t]
-            m = re.search(r"sort:\s*IfSort::([A-Za-z]+)", a.action)
+            m = re.search(r"IfSort::([A-Za-z]+)", a.action)
             ikey = "grammar:%s" % name
-            if len(toks) != 1 or not m:
-                res.inst(ikey, "lang/fun/src/parser/fun.lalrpop", a.line, "violation")
-                res.violate(ikey, "conditional production `%s` has no unique comparison token / sort" % name, "lang/fun/src/parser/fun.lalrpop", a.line)
+            if len(toks) != 1 or not m or len(re.findall(r"IfSort::[A-Za-z]+", a.action)) != 1:
+                res.inst(ikey, LAL, a.line, "violation")
+                res.violate(ikey, "conditional production `%s` has no unique comparison token / sort" % name, LAL, a.line)
                 continue
             n += 1
             tok, zero = toks[0]
             want = TOKEN_SORT[tok] if zero != "left" else MIRROR[TOKEN_SORT[tok]]
             ok = m.group(1) == want
+            inline = bool(re.search(r"\bsnd\s*:", a.action))
             snd_none = bool(re.search(r"snd:\s*None", a.action))
-            if zero and not snd_none or (not zero and snd_none):
-                ok = False
-            if ok:
-                res.inst(ikey, "lang/fun/src/parser/fun.lalrpop", a.line, "ok", "%s%s -> %s" % (tok, " (0 on the %s)" % zero if zero else "", want))
+            if inline:
+                if zero and not snd_none or (not zero and snd_none):
+                    ok = False
             else:
-                res.inst(ikey, "lang/fun/src/parser/fun.lalrpop", a.line, "violation")
+                # the production only yields the sort (`Cmp: IfSort = { "==" => IfSort::Equal, .. }`): the production that uses it
+                # decides about the second operand
+                token_nts.setdefault(name, set()).add("zero" if zero else "two")
+            if ok:
+                res.inst(ikey, LAL, a.line, "ok", "%s%s -> %s" % (tok, " (0 on the %s)" % zero if zero else "", want))
+            else:
+                res.inst(ikey, LAL, a.line, "violation")
                 res.violate(ikey, "production `%s` reads token `%s`%s but builds IfSort::%s%s (expected IfSort::%s, snd %s)" %
-                            (name, tok, " with 0 on the %s" % zero if zero else "", m.group(1), "" if snd_none == bool(zero) else " with wrong snd",
-                             want, "None" if zero else "Some"), "lang/fun/src/parser/fun.lalrpop", a.line)
+                            (name, tok, " with 0 on the %s" % zero if zero else "", m.group(1), "" if (not inline or snd_none == bool(zero)) else " with wrong snd",
+                             want, "None" if zero else "Some"), LAL, a.line)
+    for nt, forms in sorted(token_nts.items()):
+        if len(forms) != 1:
+            res.inst("grammar:%s:forms" % nt, LAL, None, "violation")
+            res.violate("grammar:%s:forms" % nt, "`%s` mixes comparisons with zero and comparisons of two terms: its users cannot know whether a second operand follows" % nt, LAL, None)
+            continue
+        form = next(iter(forms))
+        users = 0
+        for name, p in g.prods.items():
+            for a in p["alts"]:
+                if not a.action or not any(s["sym"].split("<")[0] == nt for s in a.symbols):
+                    continue
+                users += 1
+                ikey = "grammar:%s:uses:%s" % (name, nt)
+                has_some, has_none = bool(re.search(r"\bSome\s*\(", a.action)), bool(re.search(r"\bNone\b", a.action))
+                good = (has_none and not has_some) if form == "zero" else (has_some and not has_none)
+                if good:
+                    res.inst(ikey, LAL, a.line, "ok", "%s: second operand %s" % (nt, "absent" if form == "zero" else "present"))
+                else:
+                    res.inst(ikey, LAL, a.line, "violation")
+                    res.violate(ikey, "production `%s` reads a comparison %s (`%s`) but builds the conditional %s a second operand" %
+                                (name, "with zero" if form == "zero" else "of two terms", nt, "with" if form == "zero" else "without"), LAL, a.line)
+        if not users:
+            raise AnalysisError("R-ENUM/surface: the comparison nonterminal %s is used by no production" % nt)
     if n < 18:
         raise AnalysisError("R-ENUM/surface: only %d conditional productions found" % n)
     p = g.prods.get("BinOp")
@@ -196,25 +227,21 @@ def rule_enum_surface(ctx):
     for key, ein, table in (("<fun::syntax::terms::ifc::IfSort as scc_printer::types::Print>::print", "fun::syntax::terms::ifc::IfSort", inv_sort),
                             ("<fun::syntax::terms::op::BinOp as scc_printer::types::Print>::print", "fun::syntax::terms::op::BinOp", {v: k for k, v in TOKEN_OP.items()})):
         fn = Fn(fx.fn(key))
-        maps = enum_maps(fx, fn, ein)
-        if not maps:
-            raise AnalysisError("R-ENUM/surface: no table in %s" % key)
-        bi, adt, m = maps[0]
+        # the printer folded for every variant (abstract interpretation with the `pretty` builder modelled): the text it prints
+        from .. import docmodel, interp as _interp
+        from ..interp import Adt as _Adt, Sym as _Sym
+        cfg = _Adt("scc_printer::types::PrintCfg", "PrintCfg", {"width": 80, "indent": 4, "allow_linebreaks": True, "latex": False})
         for vin in [v["name"] for v in fx.adts[ein]["variants"]]:
-            r = m.get(vin)
             ikey = "%s:%s" % (key, vin)
-            tok = None
-            if r and r[0] == "call":
-                for a in r[4]["args"]:
-                    if a.get("k") == "const":
-                        tok = a.get("str") or (fx.consts.get(a.get("def"), {}) or {}).get("str")
-                    elif a.get("k") in ("copy", "move"):
-                        # const assigned to a temporary first
-                        for bb in fn.blocks:
-                            for s in bb["stmts"]:
-                                if s["k"] == "assign" and s["lhs"]["l"] == a["pl"]["l"] and s["rv"]["k"] == "use" and s["rv"]["op"].get("k") == "const":
-                                    o = s["rv"]["op"]
-                                    tok = tok or o.get("str") or (fx.consts.get(o.get("def"), {}) or {}).get("str")
+            I = _interp.Interp(fx, hooks=[docmodel.doc_hook], max_depth=4, max_paths=16)
+            outs = [o for o in I.run(fx.fn(key), [_Adt(ein, vin, {}), cfg, _Sym("alloc")]) if not getattr(o, "diverged", None)]
+            docs = [o.result for o in outs if isinstance(o.result, docmodel.Doc)]
+            if len(docs) != 1 or len(outs) != 1:
+                raise AnalysisError("R-ENUM/surface: the printer of %s::%s could not be folded" % (ein.split("::")[-1], vin))
+            parts = [tk for tk in docs[0].toks if tk[0] not in ("space", "line", "hardline")]
+            tok = parts[0][1] if len(parts) == 1 and parts[0][0] in ("text", "kw", "ctor", "dtor", "typ") and isinstance(parts[0][1], str) else None
+            if tok is None and parts:
+                raise AnalysisError("R-ENUM/surface: the printer of %s::%s prints %r, which is not one literal token" % (ein.split("::")[-1], vin, parts[:3]))
             if tok == table.get(vin):
                 res.inst(ikey, fn.file, fn.line, "ok", "%s prints `%s`" % (vin, tok))
             else:
